@@ -413,3 +413,40 @@ def replay_results(check, behaviours, results, keyfn, what_prefix, nontrivial=la
     check.count(n, [b for b in behaviours if nontrivial(b)])
     check.traces(n)
     return n
+
+
+class MiniNode:
+    """One incarnation of a mini node (`rnverif node run <dir>`), driven line by line from Python."""
+
+    def __init__(self, directory, settle_ms=700, env=None):
+        e = dict(os.environ, RUST_LOG="off")
+        if env:
+            e.update(env)
+        self.p = subprocess.Popen([HARNESS, "node", "run", directory, "--settle", str(settle_ms)], stdin=subprocess.PIPE,
+                                  stdout=subprocess.PIPE, stderr=subprocess.DEVNULL, text=True, bufsize=1, env=e)
+        first = self.p.stdout.readline()
+        if not first.strip() or json.loads(first).get("res") != "booted":
+            raise ToolError("mini node did not boot: %s" % first.strip())
+
+    def call(self, op):
+        self.p.stdin.write(json.dumps(op) + "\n")
+        self.p.stdin.flush()
+        ln = self.p.stdout.readline()
+        if not ln.strip():
+            raise ToolError("mini node died at %s" % op.get("op"))
+        return json.loads(ln)
+
+    def stop(self):
+        """clean stop: stdin closed, the node lets acknowledged writes reach the OS and exits"""
+        try:
+            self.p.stdin.close()
+        except OSError:
+            pass
+        self.p.wait(timeout=60)
+
+    def kill(self):
+        try:
+            self.p.kill()
+        except OSError:
+            pass
+        self.p.wait()
